@@ -187,23 +187,35 @@ def check_multilevel(ctx: Ctx, cases: List[dict]) -> None:
     for (gk, D), cs in by.items():
         if len(cs) < 2:
             continue
-        c1, c2 = cs[0], cs[-1]
-        g = mk_grid(c1["g"])
-        t1, t2 = build(c1["name"], c1["parts"], g, "tensor"), build(c2["name"], c2["parts"], g, "tensor")
-        M1, M2 = hom(c1["M"]), hom(c2["M"])
-        P = probes(D)
-        exp = P + (apply_hom(M1, P) - P) + (apply_hom(M2, P) - P)
-        sig = dict(view="MultiLevelTransform", D=D, members=[c1["name"], c2["name"]])
-        try:
-            ml = MultiLevelTransform(t1, t2)
-            y = ml(P.float().unsqueeze(0))
-        except Exception as ex:
-            ctx.violation(dict(**sig, exc=type(ex).__name__), f"MultiLevelTransform raised {ex}", dict(c1=c1, c2=c2))
-            continue
-        err = max_err(y[0], exp)
-        if err > 1e-4:
-            ctx.violation(sig, f"MultiLevelTransform({c1['name']}, {c2['name']}) does not add the members' displacements (off by {err:.3g})", dict(c1=c1, c2=c2))
-        ctx.count(key=("multilevel", gk, c1["name"], c2["name"]))
+        for nm in (2, 3, 4):
+            if len(cs) < nm:
+                continue
+            members = [cs[(i * (len(cs) - 1)) // (nm - 1)] for i in range(nm)]
+            g = mk_grid(members[0]["g"])
+            ts = [build(m["name"], m["parts"], g, "tensor") for m in members]
+            Ms = [hom(m["M"]) for m in members]
+            P = probes(D)
+            exp = P + sum((apply_hom(M, P) - P) for M in Ms)
+            names = [m["name"] for m in members]
+            sig = dict(view="MultiLevelTransform", D=D, members=nm)
+            case = dict(members=members)
+            try:
+                ml = MultiLevelTransform(*ts)
+                y = ml(P.float().unsqueeze(0))
+                mat = ml.tensor()
+            except Exception as ex:
+                ctx.violation(dict(**sig, exc=type(ex).__name__), f"MultiLevelTransform{tuple(names)} raised {ex}", case)
+                continue
+            err = max_err(y[0], exp)
+            if err > 1e-4:
+                ctx.violation(sig, f"MultiLevelTransform{tuple(names)} does not add the members' displacements (off by {err:.3g})", case)
+            # all members are linear: tensor() is the homogeneous matrix of x + sum u_i(x) = (sum A_i - (n - 1) I) x + sum t_i
+            Msum = sum(Ms) - (nm - 1) * torch.eye(D, D + 1, dtype=Ms[0].dtype)
+            if tuple(mat.shape[-2:]) == (D, D + 1):
+                err = max_err(mat.reshape(D, D + 1), Msum)
+                if err > 1e-4:
+                    ctx.violation(dict(**sig, what="tensor"), f"MultiLevelTransform{tuple(names)}.tensor() is not the matrix of the summed map (off by {err:.3g})", case)
+            ctx.count(key=("multilevel", gk, tuple(names)))
 
 
 def run(ctx: Ctx) -> None:
